@@ -15,7 +15,8 @@ LEVEL = "translation_validation"
 RULE = (
     "programs generated from the structure grammar (G-struct: literals, ~35 core elements, variables, "
     "if/for/while, λ ƛ ' µ, named functions, list literals, 11 modifiers, break/recurse; depth<=4, <=30 nodes), "
-    "0-3 inputs of small ints / int lists, flag sets {'',O,o,j,s,W,H,M,m}; a case counts when the reference model "
+    "0-3 inputs of small ints / int lists, flag sets {'',O,o,j,s,W,H,M,m}; plus every sequence of <=2 (quick) / <=3 (thorough) "
+    "top-level statements over a 34-template alphabet x 3 input lists; a case counts when the reference model "
     "does not Skip (documents determine the behaviour) and the implementation run was observed by the exec probe; "
     "distinct_nontrivial = distinct (program text, inputs, flags) containing at least one structure"
 )
@@ -25,15 +26,47 @@ ASSUMPTIONS = [
     "if-statement context binding: documents disagree; either reading accepted per program, mixed readings in one run reported",
 ]
 MIN_COUNTERS = {"compared": {"quick": 3000, "thorough": 30000}, "exec_probe_hits": {"quick": 3000, "thorough": 30000},
-                "trace_boundaries_observed": {"quick": 10000, "thorough": 100000}}
+                "trace_boundaries_observed": {"quick": 10000, "thorough": 100000},
+                "exhaustive_programs": {"quick": 3000, "thorough": 100000}}
 UNIT_TIMEOUT = 150
 FLAGSETS = ["", "", "", "O", "o", "j", "s", "W", "H", "M", "m"]
 
 
+# exhaustive part: every sequence of top-level statements over this alphabet (length <= 2 quick, <= 3 thorough)
+EXH = [
+    [["num", 0]], [["num", 1]], [["num", 3]],
+    [["el", "+"]], [["el", "-"]], [["el", ":"]], [["el", "_"]], [["el", "$"]], [["el", "w"]], [["el", "n"]],
+    [["el", "?"]], [["el", ","]], [["el", "W"]], [["el", "›"]], [["el", "†"]], [["el", "ɾ"]],
+    [["if", [[["num", 1]], [["num", 2]]]]],
+    [["if", [[["el", "n"]]]]],
+    [["for", None, [["el", "n"]]]],
+    [["for", None, [["brk"]]]],
+    [["for", "a", [["vget", "a"], ["el", "d"]]]],
+    [["while", [["el", ":"]], [["el", "‹"]]]],
+    [["lam", None, [["el", "+"]]]],
+    [["lam", 2, [["el", "n"]]]],
+    [["map", [["el", "›"]]]],
+    [["filter", [["el", "n"]]]],
+    [["sort", [["el", "N"]]]],
+    [["list", [[["el", "n"]], [["el", "!"]]]]],
+    [["mod", "v", [["el", "›"]]]],
+    [["mod", "ƒ", [["el", "+"]]]],
+    [["mod", "₌", [["el", "+"], ["el", "-"]]]],
+    [["mod", "ß", [["lam", 0, [["num", 7]]]]]],
+    [["def", "f", [1], [["el", "n"]]]],
+    [["call", "f"]],
+]
+EXH_INPUTS = [[], [5], [[1, 2], 3]]
+
+
 def units(tier, seed):
-    n_units = 320 if tier == "quick" else 3200
+    n_units = 320 if tier == "quick" else 12000
     per = 120
-    return [{"kind": "random", "seed": seed, "idx": i, "n": per} for i in range(n_units)]
+    u = [{"kind": "random", "seed": seed, "idx": i, "n": per} for i in range(n_units)]
+    L = 2 if tier == "quick" else 3
+    for first in range(len(EXH)):
+        u.append({"kind": "exh", "first": first, "len": L})
+    return u
 
 
 def setup_worker():
@@ -296,6 +329,20 @@ def run_unit(unit):
     res = {"evals": 0, "keys": [], "violations": [], "inconclusive": [], "skips": {}, "counters": {}, "samples": []}
     if unit["kind"] == "one":
         check_case(unit["prog"], unit["inputs"], unit["flags"], res)
+        return res
+    if unit["kind"] == "exh":
+        import itertools
+
+        n = 0
+        for L in range(1, unit["len"] + 1):
+            for tail in itertools.product(range(len(EXH)), repeat=L - 1):
+                prog = list(EXH[unit["first"]])
+                for i in tail:
+                    prog = prog + EXH[i]
+                for inputs in EXH_INPUTS:
+                    n += 1
+                    check_case(prog, inputs, "", res)
+        res["counters"]["exhaustive_programs"] = n
         return res
     rnd = random.Random(f"C01/{unit['seed']}/{unit['idx']}")
     for j in range(unit["n"]):
